@@ -1,6 +1,6 @@
 """C03 - update returns the density ratio, keeps unconstrained choices, and is invertible."""
 from ..common import Check
-from .. import gficheck
+from .. import gficheck, gfirecord
 
 QUICK = ["f2", "fs", "fa", "fd", "fvf"]
 THOROUGH = QUICK + ["fn3", "fv", "fr", "fc", "fsc", "cTF"]
@@ -20,4 +20,5 @@ def run(tier, argv):
     chk.cov["rule"] = ("every (simulated trace, new argument incl. ones that flip a Cond condition or change Scan/Vmap inputs, constraint over a "
                        "lane-closed subset of <= MaxCons leaves with every value) behaviour of DoUpdate; the real discard is fed back (round trip); "
                        "plan b starts from the 3 constant-script traces per argument")
+    chk.cov["recorded_events"] = gfirecord.run_b(chk, {"update"}, QUICK if tier == "quick" else THOROUGH, 12 if tier == "quick" else 150)
     return chk.finish()
